@@ -96,7 +96,7 @@ def kmers_present(c):
     c.runtime = {"module": "c07", "name": "kmers_present", "asan": True}
     c.mutant("stop = seq_length + stop", "stop = seq_length + stop + 1")
     c.mutant("if start < 0:\n                start = 0", "if start < 0:\n                start = 1")
-    c.mutant("elif start > seq_length", "elif start > seq_length + 1")
+    c.mutant("elif stop == 0:\n            stop = seq_length", "elif stop == 0:\n            stop = seq_length - 1")
 
 
 def classify_loss(f):
